@@ -89,6 +89,11 @@ Proof.
     + f_equal. apply IH. intros Hp. apply H. right. exact Hp.
 Qed.
 
+Lemma snoc_app {A} (pre : list A) x r : pre ++ x :: r = (pre ++ [x]) ++ r.
+Proof. rewrite <- app_assoc. reflexivity. Qed.
+Lemma length_snoc {A} (pre : list A) x : length (pre ++ [x]) = S (length pre).
+Proof. rewrite app_length. simpl. lia. Qed.
+
 (* ---------------- the loop never runs out of its iteration bound ---------------- *)
 Lemma scrub_visit_length d gs i g l : length (scrub_visit d gs i g l) <= length gs.
 Proof.
@@ -118,35 +123,32 @@ Fixpoint scrub_def (d : nat) (suf : list grp) : list grp :=
       else (g, l') :: scrub_def d r
   end.
 
-Lemma scrub_loop_def k : forall d pre suf,
+Lemma scrub_loop_def k : forall d (pre suf : list grp),
   NoDup (map fst (pre ++ suf)) -> length suf <= k ->
   scrub_loop k d (pre ++ suf) (length pre) = pre ++ scrub_def d suf.
 Proof.
   induction k as [|k IH]; intros d pre suf ND Hk.
   - destruct suf; [simpl; reflexivity | simpl in Hk; lia].
   - destruct suf as [|[g l] r].
-    + simpl. rewrite app_nil_r.
-      assert (E : nth_error pre (length pre) = None) by (apply nth_error_None; lia).
-      rewrite E. reflexivity.
+    + simpl. rewrite !app_nil_r.
+      destruct (nth_error pre (length pre)) as [[g l]|] eqn:E; [|reflexivity].
+      exfalso. assert (length pre < length pre) by (apply nth_error_Some; rewrite E; discriminate). lia.
     + cbn [scrub_loop]. rewrite nth_error_app_len. unfold scrub_visit. rewrite set_nth_app_len.
       cbn [scrub_def]. destruct (is_nil (remove_first d l)) eqn:En.
       * assert (Hg : ~ In g (map fst pre)).
         { rewrite map_app in ND. simpl in ND. apply NoDup_remove_2 in ND. intros H. apply ND. apply in_or_app. left. exact H. }
         rewrite remove_grp_app_notin by exact Hg.
         destruct r as [|x r2].
-        -- rewrite app_nil_r. destruct k; simpl; [reflexivity|].
-           assert (E : nth_error pre (S (length pre)) = None) by (apply nth_error_None; lia).
-           rewrite E. reflexivity.
-        -- replace (pre ++ x :: r2) with ((pre ++ [x]) ++ r2) by (rewrite <- app_assoc; reflexivity).
-           replace (S (length pre)) with (length (pre ++ [x])) by (rewrite app_length; simpl; lia).
+        -- cbn iota. rewrite !app_nil_r. destruct k; cbn [scrub_loop]; [reflexivity|].
+           destruct (nth_error pre (S (length pre))) as [[g' l']|] eqn:E; [|reflexivity].
+           exfalso. assert (S (length pre) < length pre) by (apply nth_error_Some; rewrite E; discriminate). lia.
+        -- rewrite (snoc_app pre x r2), <- (length_snoc pre x).
            rewrite IH.
            ++ rewrite <- app_assoc. reflexivity.
            ++ rewrite <- app_assoc. simpl. rewrite map_app in ND |- *. simpl in ND |- *.
               apply NoDup_remove_1 in ND. exact ND.
            ++ simpl in Hk. lia.
-      * replace (pre ++ (g, remove_first d l) :: r) with ((pre ++ [(g, remove_first d l)]) ++ r)
-          by (rewrite <- app_assoc; reflexivity).
-        replace (S (length pre)) with (length (pre ++ [(g, remove_first d l)])) by (rewrite app_length; simpl; lia).
+      * rewrite (snoc_app pre (g, remove_first d l) r), <- (length_snoc pre (g, remove_first d l)).
         rewrite IH.
         -- rewrite <- app_assoc. reflexivity.
         -- rewrite <- app_assoc. simpl. rewrite map_app in ND |- *. simpl in ND |- *. exact ND.
@@ -223,7 +225,7 @@ Proof.
         apply IH; [simpl in Hn; lia | exact NEr2 |].
         (* the pair (l2, head of r2) cannot be the violating one since d is not in l2 *)
         destruct r2 as [|[g3 l3] r3]; [simpl in NS; discriminate|].
-        rewrite Em in NS. rewrite andb_false_r in NS. simpl in NS. exact NS.
+        rewrite ?Em in NS. rewrite andb_false_r in NS. simpl in NS. exact NS.
     + unfold dangling. cbn [existsb snd]. apply orb_true_iff. right.
       apply IH; [simpl in Hn; lia | exact NEr |].
       destruct r as [|[g2 l2] r2]; [simpl in NS; discriminate|].
@@ -284,7 +286,7 @@ Proof.
   - reflexivity.
 Qed.
 
-Lemma scrub_snap_from d : forall suf pre,
+Lemma scrub_snap_from d : forall (suf pre : list grp),
   NoDup (map fst (pre ++ suf)) ->
   fold_left (visit_id d) (map fst suf) (scrub_spec d pre ++ suf) = scrub_spec d (pre ++ suf).
 Proof.
@@ -298,7 +300,7 @@ Proof.
     { apply NoDup_remove_2 in HND. intros H. apply HND. apply in_or_app. right. exact H. }
     rewrite visit_id_step; [| intros H; apply Hpre; eapply scrub_spec_ids; exact H | exact Hr].
     rewrite app_assoc, <- scrub_spec_app.
-    replace (pre ++ (g, l) :: r) with ((pre ++ [(g, l)]) ++ r) by (rewrite <- app_assoc; reflexivity).
+    rewrite (snoc_app pre (g, l) r).
     apply IH. rewrite <- app_assoc. exact ND.
 Qed.
 
